@@ -384,7 +384,9 @@ func (w *world) edit(typ int32, id int64, name string, t tok, code string) {
 	hs[2] = int64(lo & 0xffffffff)
 	n := w.nodes[0]
 	n.Apply([]tlmetadata.Event{e}, e.Version)
-	w.ops = append(w.ops, fmt.Sprintf("OEdit %s %s %s %s", evTerm(e), vu.ListZ(hs), vu.ListZ(szs), obsTerm(n)))
+	// with unparsable payloads even the source's own indexes can hold two entities under one name
+	amb, gord, _ := ambTerms(n)
+	w.ops = append(w.ops, fmt.Sprintf("OEdit %s %s %s %s %s %s", evTerm(e), vu.ListZ(hs), vu.ListZ(szs), amb, gord, obsTerm(n)))
 	w.text = append(w.text, fmt.Sprintf("%s%d:%s@%d", code, id, name, w.ver))
 }
 
@@ -1238,11 +1240,22 @@ func pollScenario(r *vu.Rng, o *vu.Out, idx int) {
 					bad = true
 				}
 			}
+			// F-C20c: version numbers of compact journals are per aggregator (an event equal to the stored one keeps the
+			// OLD version), so the cursor of an agent that synced from another compact aggregator does not transfer
+			switched := compact && (kinds[i] == "ahead" || kinds[0] == "ahead")
 			if bad {
-				fails = append(fails, [2]string{"agent_has_upstream_latest", fmt.Sprintf("client=%d(%s)", i, kinds[i])})
+				if compact && kinds[i] == "ahead" {
+					fails = append(fails, [2]string{"agent_stale_after_switching_compact_aggregator", fmt.Sprintf("client=%d(%s) switched-aggregator", i, kinds[i])})
+				} else {
+					fails = append(fails, [2]string{"agent_has_upstream_latest", fmt.Sprintf("client=%d(%s)", i, kinds[i])})
+				}
 			}
 			if _, _, _, h, l, _ := c.State(); h != h0 || l != l0 {
-				fails = append(fails, [2]string{"replicas_same_hash", fmt.Sprintf("clients 0 and %d(%s)", i, kinds[i])})
+				if switched {
+					fails = append(fails, [2]string{"hash_differs_after_switching_compact_aggregator", fmt.Sprintf("clients 0(%s) and %d(%s) switched-aggregator", kinds[0], i, kinds[i])})
+				} else {
+					fails = append(fails, [2]string{"replicas_same_hash", fmt.Sprintf("clients 0 and %d(%s)", i, kinds[i])})
+				}
 			}
 		}
 		// two aggregator journals of the same source with different delivery histories
@@ -1304,6 +1317,38 @@ func witness(o *vu.Out) {
 		sync(2) // metric 2 and the group: the index is rebuilt while metric 1 is still known as "x"
 		if m := rep.S.GetMetaMetricByName("x"); m == nil || m.MetricID != 2 {
 			hit = true
+		}
+	}
+	// F-C20c: an agent that moves from one compact aggregator journal to another keeps a stale entity for good
+	{
+		S, aggL, aggA, agent := mj.NewVerifNode(false), mj.NewVerifNode(true), mj.NewVerifNode(true), mj.NewVerifNode(false)
+		pull := func(to, from *mj.VerifNode, hop bool) {
+			_, loader, _, _, _, _ := to.State()
+			evs, cur := from.Diff(loader, 1000, unlimited)
+			for i := range evs {
+				if hop {
+					evs[i] = wire(evs[i])
+				}
+			}
+			to.Apply(evs, cur)
+		}
+		putS := func(e tlmetadata.Event) { S.Apply([]tlmetadata.Event{e}, e.Version) }
+		putS(metricEv(1, "x", 1, "{}"))
+		pull(aggL, S, false) // aggregator L: x (plain) at version 1
+		putS(metricEv(1, "x", 2, `{"resolution":5}`))
+		pull(aggA, S, false) // aggregator A starts now: x (resolution 5) at version 2
+		pull(agent, aggA, true)
+		putS(metricEv(1, "x", 3, "{}")) // the edit is undone
+		pull(aggL, S, false)            // equal to what L stores: skipped, L keeps version 1
+		pull(agent, aggL, true)         // the agent (cursor 2) now follows L: nothing is ever sent
+		ea, _, _ := agent.Entries()
+		el, _, _ := aggL.Entries()
+		_, _, _, h1, l1, _ := agent.State()
+		_, _, _, h2, l2, _ := aggL.State()
+		if len(ea) == 1 && len(el) == 1 && ea[0].Data != el[0].Data && (h1 != h2 || l1 != l2) {
+			o.Finding("F-C20c", "reproduced")
+		} else {
+			o.Finding("F-C20c", "gone")
 		}
 	}
 	if hit {
